@@ -14,6 +14,7 @@ REPO = os.environ.get('VP_RUN_REPO') or os.environ.get('REPO_DIR', '/repo')
 ap = argparse.ArgumentParser()
 ap.add_argument('--jobs', type=int, default=2)
 ap.add_argument('--props')
+ap.add_argument('--own', action='store_true', help='run only the check of the property the seed was written against (meta.json)')
 ap.add_argument('seeds', nargs='*')
 args = ap.parse_args()
 man = json.load(open(VERIF + '/MANIFEST.json'))
@@ -41,7 +42,10 @@ def one(d):
         if r.returncode != 0:
             return name, None, 'PATCH DOES NOT APPLY ' + (r.stdout + r.stderr)[:300]
         flagged = {}
-        for p in props:
+        myprops = props
+        if args.own:
+            myprops = [json.load(open(d + 'meta.json'))['property']]
+        for p in myprops:
             out = subprocess.run([RUNV + '/bin/vcheck', 'check', '--property', p, '--tier', 'quick', '--no-evidence', '--discard-queries',
                                   '--repo', scratch, '--verif', RUNV], capture_output=True, text=True, cwd=RUNV)
             viol = [l for l in out.stdout.split('\n') if l.startswith('VIOLATION')]
@@ -73,5 +77,6 @@ with concurrent.futures.ThreadPoolExecutor(max_workers=args.jobs) as ex:
             for x in v[:6]:
                 print('    ', p, x)
         head = HEAD
-        json.dump({'repo_commit': head, 'properties_checked': props, 'flagged': flagged}, open(VERIF + '/seeded/' + name + '/detection.json', 'w'), indent=1)
+        if not args.own:
+            json.dump({'repo_commit': head, 'properties_checked': props, 'flagged': flagged}, open(VERIF + '/seeded/' + name + '/detection.json', 'w'), indent=1)
 shutil.rmtree(SNAP, ignore_errors=True)
